@@ -34,6 +34,9 @@ package main
 //	prune <version>            pndb.PruneBelowVersion          -> "ok n=<#keys>"
 //	crash-prune <version> <k>  prune with a write budget of k, restart, prune again -> "ok n=<#keys>"
 //	light                      (first op of large histories) no per-operation re-reads after ins/del -> ok
+//	save-timeout a|b           SaveChanges leaves through its context while the batch is stalled in the store (b: and is
+//	                           retried before the release); a nil result must mean a complete store  -> ok
+//	save-fail [n]              n (default 60) times: the store fails the batch write, SaveChanges must return an error -> ok
 //	pstore                     -> "ok keys=<k,...> vd=<sha3 of all key||value> dead=<version:k,k;...>"
 //
 // The event stream of an ins/del is the sequence of ChangeCollector calls the trie made, recorded by a decorator
@@ -1097,10 +1100,14 @@ func (s *storeRun) exec(op string) string {
 		if t == nil {
 			return "bad-op"
 		}
-		for i := 0; i < 60; i++ {
+		attempts := 60
+		if len(f) > 1 {
+			attempts = atoi(f[1])
+		}
+		for i := 0; i < attempts; i++ {
 			grocksdb.FakeFailNext(s.dir)
 			if err := t.mpt.SaveChanges(context.Background(), s.pndb, false); err == nil {
-				s.fail("C04", "SaveChanges reported success although its batch write failed (attempt %d of 60)", i+1)
+				s.fail("C04", "SaveChanges reported success although its batch write failed (attempt %d of %d)", i+1, attempts)
 				break
 			}
 		}
